@@ -239,8 +239,52 @@ class Discharger:
             self.ev.obligation(name, False, dt, detail=detail)
             self.failures.append((name, path, s.model()))
             return False
+        # the solver gave up (typically a floating-point multiplier/divider): look for a counterexample among
+        # edge values of the 64-bit integer inputs -- each candidate is decided by the solver with the inputs fixed
+        m = self._edge_search(s)
+        if m is not None:
+            self.ev.obligation(name, False, time.time() - t, detail={**(detail or {}), "solver": "unknown on the open query; counterexample found by fixing integer inputs to edge values"})
+            self.failures.append((name, path, m))
+            return False
         self.ev.obligation(name, False, dt, detail={"solver": "unknown", "reason": s.reason_unknown()})
         self.inconclusive.append(f"{name}: solver unknown ({s.reason_unknown()})")
+        return None
+
+    EDGE64 = [0, 1, -1, 2, -2, 3, 10, -10, (1 << 63) - 1, -(1 << 63), -(1 << 63) + 1, (1 << 53) + 1, -(1 << 53) - 1, (1 << 62), 3 * ((1 << 53) + 1), 1 << 32]
+
+    def _edge_search(self, solver, budget=600):
+        import itertools
+        consts = {}
+
+        def walk(e, seen):
+            if e.get_id() in seen:
+                return
+            seen.add(e.get_id())
+            if z3.is_const(e) and e.decl().kind() == z3.Z3_OP_UNINTERPRETED and z3.is_bv(e) and e.size() == 64 and "discr(" not in str(e):
+                consts[str(e)] = e
+            for c in e.children():
+                walk(c, seen)
+        seen = set()
+        for a in solver.assertions():
+            walk(a, seen)
+        names = sorted(consts)[:3]
+        if not names:
+            return None
+        n = 0
+        for combo in itertools.product(self.EDGE64, repeat=len(names)):
+            n += 1
+            if n > budget:
+                break
+            solver.push()
+            for nm, val in zip(names, combo):
+                solver.add(consts[nm] == z3.BitVecVal(val, 64))
+            solver.set("timeout", 1500)
+            r = solver.check()
+            if r == z3.sat:
+                m = solver.model()
+                solver.pop()
+                return m
+            solver.pop()
         return None
 
     def reachable(self, name, path, cond=None):
